@@ -37,8 +37,8 @@ def check(repo: Repo, R) -> None:
     looks = [c for c in au.calls_in(fct.node) if isinstance(c.func, ast.Attribute) and c.func.attr == "get" and ast.unparse(c.func.value) == "module.namespace"]
     magic = [ast.unparse(c) for c in au.calls_in(fct.node) if (dotted(c.func) or "") in ("getattr", "module.__getattribute__", "module.__getattr__")]
     miss = shared.raises_under(fct.node, [("module.namespace.get(sname) is None", True), ("stype == 'concat'", False)]) or any(isinstance(n, ast.If) and "is None" in ast.unparse(n.test) and au.raises(n.body) for n in au.walk_no_nested(fct.node))
-    R.check(len(looks) == 1 and not magic and miss, "C11.3-variant-coverage", key_of(fct, "lookup"), fct.site,
-            f"signals named by a connection are looked up in module.namespace ({len(looks) == 1}; attribute lookups: {magic or 'none'}); an unknown name raises ({miss})",
+    R.check(len(looks) >= 1 and not magic and miss, "C11.3-variant-coverage", key_of(fct, "lookup"), fct.site,
+            f"signals named by a connection are looked up in module.namespace ({len(looks) >= 1}; attribute lookups: {magic or 'none'}); an unknown name raises ({miss})",
             why="packages with signals named like Module attributes (`name`, `ports`) or with a leading underscore cannot be imported")
     R.floor("C11.1-inverse-tables", 6)
     R.floor("C11.2-field-coverage", 10)
